@@ -166,7 +166,9 @@ pub fn gen_repls(rng: &mut Rng, cfg: &GenCfg, inner_src: &str) -> Vec<ReplT> {
     let mut a = if rng.chance(3) { *rng.pick(&borders) } else { rng.below(len + 3) };
     if !rs.is_empty() && rng.chance(5) { a = rs[rng.below(rs.len())].start as usize; } // colliding keys
     a = align(inner_src, a);
-    let mut b = a + if rng.chance(2) { 0 } else { rng.below(4) };
+    // far beyond the end, up to the largest u32
+    if rng.chance(16) { a = [u32::MAX as usize - 2, (1usize << 31) - 1, 70000][rng.below(3)]; }
+    let mut b = a + if rng.chance(2) { 0 } else { rng.below(3) };
     if !rs.is_empty() && rng.chance(8) { b = (rs[rng.below(rs.len())].end as usize).max(a); }
     b = align(inner_src, b).max(a);
     let content = if rng.chance(6) { String::new() } else { text(rng, 4, cfg.mb) };
